@@ -34,6 +34,7 @@ func (C20) Rule() string {
 		"After every hostile request, with background goroutines drained by the seeded scheduler: the process must be alive, the answer must not be a recovered panic (500 'Panic detected'), a trivial request and a well-formed write to the same instance must be served (a later request that hangs is a violation; a hostile request that only hangs itself is not); " +
 		"after every few requests the complete catalogue snapshot of everything the requests did not address - all other instances at all versions and the target instance at the committed version - must be unchanged. " +
 		"Requests that replace one value as a whole (node note, node log, label index POST) are also judged on their own target: answered with a client error, the value must read back as before. " +
+		"A store-errors family sends well-formed mutations and reads of every type while one store call of the request (the n-th read, write, delete or range call) returns an injected error: the request may fail, the server must not die, wedge or answer with a recovered panic, and later requests are served. " +
 		"The same monitor (panic-500, process death, wedge) runs inside every other property's check on its well-formed workload. " +
 		"non-trivial = at least 6 hostile requests of at least 3 payload kinds delivered; distinct = distinct (steps, schedule) hash"
 }
@@ -58,6 +59,18 @@ func (C20) Generate(r *rand.Rand, tier string, idx int) *drv.Scenario {
 		k := baseKnobs(r)
 		k.AllowSplit = true
 		return &drv.Scenario{Family: "url-sweep", Knobs: k, Steps: steps, Fixed: 1}
+	}
+	if idx%12 == 7 || idx%12 == 11 {
+		// store-error family: well-formed requests of every type, each meeting one failing store call (read, write,
+		// delete or range: a disk error or a full disk).  The request may fail; the server may not die, wedge or panic.
+		for i := 0; i < 10+r.IntN(8); i++ {
+			steps = append(steps, drv.Op{Op: "faulty", K: pick(r, []string{"seg", "seg", "seg", "ann", "ann", "kv", "nj", "roi", "gray"}), N: seed(),
+				F: &proto.FaultPlan{ErrAtOp: 1 + r.IntN(8), ErrMatch: pick(r, []string{"", "Put", "Get", "Delete", "Range", "Put", ""})}})
+		}
+		steps = append(steps, drv.Op{Op: "c20check"})
+		k := baseKnobs(r)
+		k.AllowSplit = true
+		return &drv.Scenario{Family: "store-errors", Knobs: k, Steps: steps, Fixed: 1}
 	}
 	n := 8 + r.IntN(10)
 	// swarm: each run concentrates on a few payload kinds
@@ -822,6 +835,82 @@ func (C20) Execute(sc *drv.Scenario, w *drv.World) (*drv.Violation, error) {
 					return viol("later-request", "a well-formed request after hostile URLs is never served ("+inst+")", fmt.Sprintf("%s %s never completes\n%s", lr.Method, lr.URL, trimTo(res.Stacks, 5000)), i), nil
 				}
 			}
+		case "faulty":
+			if x.base == nil {
+				continue
+			}
+			r := drv.NewRNG(uint64(op.N)*0x9e3779b97f4a7c15 + 707)
+			var cat *TypeCat
+			for ci := range Catalogue {
+				if Catalogue[ci].Name == op.K {
+					cat = &Catalogue[ci]
+				}
+			}
+			if cat == nil {
+				continue
+			}
+			var cands []proto.Req
+			cands = append(cands, cat.Muts(r, x.headBase(op.K))...)
+			if r.IntN(4) == 0 {
+				cands = append(cands, cat.Reads(x.headBase(op.K))...)
+			}
+			rq := pick(r, cands)
+			x.touched[op.K] = true
+			if op.K == "seg" {
+				x.touched["ann"], x.touched["lsz"] = true, true
+			}
+			if op.K == "ann" {
+				x.touched["lsz"] = true
+			}
+			desc := fmt.Sprintf("%s %s (%d-byte body) with the %d. store call matching %q failing", rq.Method, rq.URL, len(rq.Body), op.F.ErrAtOp, op.F.ErrMatch)
+			if err := w.SetFaults(op.F); err != nil {
+				return nil, err
+			}
+			res, err := w.Batch([]proto.Req{rq}, "barrier")
+			if err != nil {
+				if errors.Is(err, drv.ErrChildDied) {
+					d := strings.Join(w.Stats.ChildDeaths, "\n")
+					return viol("process-death", "process-death:"+drv.PanicSig(d), "well-formed request "+desc+" killed the server\n"+d, i), nil
+				}
+				return nil, err
+			}
+			if err := w.SetFaults(&proto.FaultPlan{}); err != nil {
+				return nil, err
+			}
+			w.Stats.Probe("faulty-" + op.K)
+			if res.Wedged {
+				cerr := w.ClassifyWedge("well-formed request "+desc, res.Stacks)
+				var he *drv.HungError
+				if errors.As(cerr, &he) {
+					w.Stats.Probe("run-ended-after-hung-request-under-store-error")
+					w.Discard()
+					return nil, nil
+				}
+				return nil, cerr
+			}
+			if isPanic500(res.Resps[0]) {
+				return viol("panic-500", "panic-500:"+drv.PanicSig(string(res.Resps[0].Body)), fmt.Sprintf("well-formed request %s answered by a recovered panic\n%s", desc, trunc(res.Resps[0].Body)), i), nil
+			}
+			if res.Resps[0].Status >= 400 {
+				w.Stats.Probe("request-failed-under-store-error")
+			}
+			for _, lr := range []proto.Req{drv.GET("/api/server/info"), x.followUp(op.K, r)} {
+				res, err := w.Batch([]proto.Req{lr}, "barrier")
+				if err != nil {
+					if errors.Is(err, drv.ErrChildDied) {
+						d := strings.Join(w.Stats.ChildDeaths, "\n")
+						return viol("process-death", "process-death:"+drv.PanicSig(d), "after "+desc+" the server died serving "+lr.Method+" "+lr.URL+"\n"+d, i), nil
+					}
+					return nil, err
+				}
+				if res.Wedged {
+					return viol("later-request", "a well-formed request after one that met a store error is never served ("+op.K+")",
+						fmt.Sprintf("%s was answered; the following %s %s never completes\n%s", desc, lr.Method, lr.URL, trimTo(res.Stacks, 5000)), i), nil
+				}
+				if isPanic500(res.Resps[0]) {
+					return viol("panic-500", "panic-500:"+drv.PanicSig(string(res.Resps[0].Body)), fmt.Sprintf("well-formed %s %s after %s answered by a recovered panic\n%s", lr.Method, lr.URL, desc, trunc(res.Resps[0].Body)), i), nil
+				}
+			}
 		case "hostile":
 			if x.base == nil {
 				continue
@@ -953,6 +1042,9 @@ func (C20) NonTrivial(sc *drv.Scenario, st *drv.RunStats) bool {
 			tot += n
 			kinds++
 		}
+	}
+	if sc.Family == "store-errors" {
+		return st.Probes["request-failed-under-store-error"] > 0 && st.Probes["bystander-snapshot-compared"] > 0
 	}
 	if st.Probes["hostile-url-sweep"] >= 60 {
 		return st.Probes["bystander-snapshot-compared"] > 0
